@@ -118,7 +118,7 @@ def catalogue_small():
 def meta(tier):
     q = tier == 'quick'
     return {
-        'rule': 'part A: frames (default endianness x opcode size/value x opcode endianness x opcode suffix) x every single-operand '
+        'rule': 'part V: every sequence of 1..3 statements out of 5 for an instruction with two overlapping variants (each statement encoded by the first accepting variant whatever came before); part A: frames (default endianness x opcode size/value x opcode endianness x opcode suffix) x every single-operand '
                 'shape of the full catalogue (every operand type; argument widths 1..64 x byte_align x endianness; code sizes x '
                 'prefix/suffix) x every value instance (all values for widths <=4, boundary and pattern values otherwise, negative '
                 'values, a constant reference); part B: frames x ordered pairs of the small catalogue x reverse_argument_order x '
@@ -138,7 +138,7 @@ def meta(tier):
             'statements are batched (one assembly per generated ISA definition and base address); on any mismatch every statement '
             'of the batch is re-assembled on its own to isolate the failing ones',
         ],
-        'floors': {'evaluations': 50, 'nontrivial': 1000, 'statuses': ['OK'], 'clauses': ['single', 'pair']},
+        'floors': {'evaluations': 50, 'nontrivial': 1000, 'statuses': ['OK'], 'clauses': ['single', 'pair', 'variant-sequence']},
         'nshards': 64, 'xcheck': 8,
     }
 
@@ -210,6 +210,7 @@ def run_batch(acc, instrs, de, clause, yaml=False):
 def shard(acc, tier, idx, n):
     q = tier == 'quick'
     ctr = 0
+    variant_sequences(acc, idx, n)
     full = catalogue_full()
     ycat = catalogue_yaml()
     small = catalogue_small()
@@ -260,6 +261,38 @@ def shard(acc, tier, idx, n):
                         ins = G.InstrSpec(f't{s3}', (op[0], op[1]), oe, suf, [tri[s1], tri[s2], tri[s3]], ra, rc, 'sets')
                         instrs.append((ins, statements_for(ins, de, max_combo=3)))
                     run_batch(acc, instrs, de, 'triple')
+
+
+def variant_sequences(acc, idx, n):
+    """An instruction with two variants whose operand patterns overlap, used several times in one program: every statement is
+    encoded by the first variant that accepts it, whatever the statements before it matched."""
+    for de in ('big', 'little'):
+        isa = {'general': {'address_size': 16, 'endian': de, 'registers': ['a', 'b', 'x'], 'min_version': '0.3.0'},
+               'operand_sets': {
+                   'r_ab': {'operand_values': {'ra': {'type': 'register', 'register': 'a', 'bytecode': {'value': 0, 'size': 4}},
+                                               'rb': {'type': 'register', 'register': 'b', 'bytecode': {'value': 1, 'size': 4}}}},
+                   'r_ax': {'operand_values': {'ra': {'type': 'register', 'register': 'a', 'bytecode': {'value': 0, 'size': 4}},
+                                               'rx': {'type': 'register', 'register': 'x', 'bytecode': {'value': 2, 'size': 4}}}},
+                   'i8': {'operand_values': {'i': {'type': 'numeric', 'argument': {'size': 8, 'byte_align': True}}}},
+                   'i16': {'operand_values': {'i': {'type': 'numeric', 'argument': {'size': 16, 'byte_align': True, 'endian': 'little'}}}}},
+               'instructions': {'ld': {'bytecode': {'value': 1, 'size': 4}, 'operands': {'count': 2, 'operand_sets': {'list': ['r_ab', 'i8']}},
+                                       'variants': [{'bytecode': {'value': 9, 'size': 4},
+                                                     'operands': {'count': 2, 'operand_sets': {'list': ['r_ax', 'i16']}}}]}}}
+        stmts = [('ld a, 5', bytes([0x10, 5])), ('ld b, 7', bytes([0x11, 7])), ('ld x, $1234', bytes([0x92, 0x34, 0x12])),
+                 ('ld x, 9', bytes([0x92, 9, 0])), ('ld A, $7F', bytes([0x10, 0x7F]))]
+        ctr = 0
+        for k in (1, 2, 3):
+            for seq in itertools.product(stmts, repeat=k):
+                ctr += 1
+                if ctr % n != idx:
+                    continue
+                case = Case(isa, '\n'.join('    ' + t for t, _ in seq) + '\n')
+                out = acc.run(case)
+                spec = {'expect': 'OK', 'image_hex': b''.join(d for _, d in seq).hex(), 'statement': ' / '.join(t for t, _ in seq), 'address': 0}
+                m = judge(spec, [out])
+                if m:
+                    acc.violation([case], spec, f'{spec["statement"]}: {m}', [out])
+                acc.judge(clause='variant-sequence', nontrivial_distinct=(k > 1))
 
 
 def judge(spec, outcomes):
